@@ -302,3 +302,14 @@ mk("m22_fnref_drop_blocking_capacity", "C05", [(FG,
    "    let (fn_done_tx, fn_done_rx) = mpsc::channel::<FnId>(std::cmp::max(1, channel_capacity / 2));", 0)],
    "done channel half size: FnRef::drop's try_send can be lost")
 # --- history / sharing ------------------------------------------------------------------
+mk("m24_f1_reverted", "C04", [(FG,
+   """        let fn_mut_refs = &fn_mut_refs;
+
+        if graph_structure.node_count() == 0 {
+            fn_done_tx.write().await.take();
+        }
+        let scheduler = async move {
+            let result_tx_ref = &result_tx;""",
+   """        let fn_mut_refs = &fn_mut_refs;
+        let scheduler = async move {
+            let result_tx_ref = &result_tx;""", 0)], "finding F1 reverted: try_for_each_concurrent_mut* on an empty graph")
